@@ -141,6 +141,84 @@ def huge_files_order_check(ctx):
     shutil.rmtree(base, ignore_errors=True)
 
 
+def output_inside_tree_check(ctx, n):
+    """`-o FILE` with FILE under a scanned input path and `--min 0`: the freshly created, still empty FILE is one more empty file
+    of the tree.  Whatever fclones decides about listing it, the report written into FILE must be consistent with itself: header
+    group / file counts = what the body lists, no group without paths, redundant count = the documented rule (plain files, no links)."""
+    import shutil
+    for i in range(n):
+        rng = ctx.rng.fork()
+        base = os.path.realpath(os.path.join(ctx.scratch, "oin%d" % i))
+        shutil.rmtree(base, ignore_errors=True)
+        root = os.path.join(base, "r")
+        os.makedirs(os.path.join(root, "sub"))
+        for k in range(1 + rng.below(3)):
+            open(os.path.join(root, rng.choice(["", "sub"]), "empty%d" % k), "wb").close()
+        data = treegen.content(rng.next(), 10)
+        for k in range(2 + rng.below(2)):
+            with open(os.path.join(root, "d%d" % k), "wb") as f:
+                f.write(data)
+        with open(os.path.join(root, "single"), "wb") as f:
+            f.write(b"only one of these")
+        fmt = rng.choice(["json", "json", "default"])
+        ofile = os.path.join(root, rng.choice(["", "sub"]), "report." + fmt)
+        opts = ["--min", "0"] + rng.choice([[], ["--unique"], ["--rf-over", "0"], ["--rf-over", "2"]])
+        rc, out, err = treegen.fclones(["group", root] + opts + ["-f", fmt, "-o", ofile], cwd=base, env={"FCLONES_VERIF_DISK_KIND": "ssd"})
+        ctx.count()
+        ctx.distinct(("oin", i, tuple(opts), fmt), True)
+        ctx.bump("output_file_inside_the_scanned_tree", " ".join(opts[2:]) or "default")
+        payload = {"scenario": "-o FILE inside the scanned tree, --min 0, empty files present", "opts": opts, "format": fmt, "ofile": ofile,
+                   "stderr": err.decode("utf-8", "replace")[-300:], "replay": "cd %s && fclones group r %s -f %s -o %s" % (base, " ".join(opts), fmt, ofile)}
+        if rc != 0 or not os.path.exists(ofile):
+            ctx.violation({"kind": "run_failed"}, "fclones group -o FILE (inside the tree) failed (%d)" % rc, payload, found_input=True)
+            continue
+        text = open(ofile, "rb").read()
+        payload["report"] = text.decode("utf-8", "replace")[:1500]
+        try:
+            if fmt == "json":
+                hdr, groups = treegen.parse_json_report(text.decode("utf-8"))
+                st = hdr.get("stats", {})
+                hg, hf, hr = st.get("group_count"), st.get("total_file_count"), st.get("redundant_file_count")
+                sizes = [len(g["files"]) for g in groups]
+            else:
+                lines = text.decode("utf-8", "replace").split("\n")
+                tot = [l for l in lines if l.startswith("# Total:")][0]
+                red = [l for l in lines if l.startswith("# Redundant:")][0]
+                hf = int(tot.split(" in ")[1].split()[0])
+                hg = int(tot.split(" in ")[2].split()[0])
+                hr = int(red.split(" in ")[1].split()[0])
+                heads = [l for l in lines if l and not l.startswith("#") and not l.startswith(" ")]
+                declared = [int(l.split("*")[1].split(":")[0]) for l in heads]
+                sizes, cur = [], None
+                for l in lines:
+                    if l and not l.startswith("#") and not l.startswith(" "):
+                        sizes.append(0)
+                    elif l.startswith("    ") and sizes:
+                        sizes[-1] += 1
+                if declared != sizes:
+                    ctx.violation({"kind": "group_header_count_differs"}, "a group header's count is not the number of paths under it: %r vs %r" % (declared, sizes),
+                                  payload, found_input=True)
+        except Exception as e:  # noqa
+            ctx.violation({"kind": "report_unparsable"}, "the report written into FILE cannot be read: %r" % (e,), payload, found_input=True)
+            continue
+        bad = []
+        if hg != len(sizes):
+            bad.append("header says %s groups, body has %d" % (hg, len(sizes)))
+        if hf != sum(sizes):
+            bad.append("header says %s files, body lists %d" % (hf, sum(sizes)))
+        if any(x == 0 for x in sizes):
+            bad.append("a group without paths")
+        if "--unique" not in opts:
+            rf = int(opts[opts.index("--rf-over") + 1]) if "--rf-over" in opts else 1
+            want = sum(max(0, x - max(rf, 1)) for x in sizes)
+            if hr != want:
+                bad.append("header says %s redundant files, the body implies %d" % (hr, want))
+        if bad:
+            ctx.violation({"kind": "header_stats_differ_from_body", "dimension": "output_inside_tree"},
+                          "report written with -o into the scanned tree is inconsistent: " + "; ".join(bad), payload, found_input=True)
+        shutil.rmtree(base, ignore_errors=True)
+
+
 def run(ctx):
     ctx.rule = ("generated trees x option sets (default, --rf-over k, --unique, --rf-under k, --isolate, --match-links, transform) x "
                 "4 output formats; a case = (tree, option set); non-trivial = the report has at least one group; "
@@ -155,7 +233,10 @@ def run(ctx):
         rng = ctx.rng.fork()
         base = os.path.join(ctx.scratch, "t%d" % ti)
         nroots = 1 + rng.below(3)
-        tree = treegen.gen_tree(rng, base, nroots=nroots, nfiles=5 + rng.below(30), hardlinks=True,
+        many_roots = ti % 6 == 5
+        if many_roots:
+            nroots = 16 + rng.below(10)          # many input paths: their order must survive every internal pass over them
+        tree = treegen.gen_tree(rng, base, nroots=nroots, nfiles=(5 + rng.below(30)) if not many_roots else (3 * nroots + rng.below(20)), hardlinks=True,
                                 sizes=treegen.SMALL_SIZES + [16384, 65536, 70000],
                                 names="hostile" if rng.chance(1, 3) else "plain")
         roots = list(tree.roots)
@@ -201,6 +282,9 @@ def run(ctx):
         if nroots >= 2:
             optsets += [["--isolate"], ["--isolate", "--rf-under", "2"]] if nroots >= 2 else []
         opts = rng.choice(optsets)
+        if many_roots:
+            opts = rng.choice([["--isolate"], ["--isolate", "--rf-over", "2"], ["--isolate", "--rf-under", "3"]])
+            ctx.bump("root_depths", "many_roots(16-25)")
         if roots != list(tree.roots) and rng.chance(2, 3):
             opts = rng.choice([["--isolate"], ["--isolate", "--rf-under", "2"], ["--isolate", "--rf-over", "0"]])
         env = {"FCLONES_VERIF_DISK_KIND": "ssd"}
@@ -375,3 +459,4 @@ def run(ctx):
             ctx.violation({"kind": "model_filter_rejects_group"}, "ReportModel.matches_strictly rejects a reported group", payload, found_input=False)
         ctx.sample({"tree": ti, "opts": opts, "groups": len(jgroups), "header": jstats, "model": m})
     huge_files_order_check(ctx)
+    output_inside_tree_check(ctx, ctx.pick(12, 120))
